@@ -33,6 +33,7 @@ func Try(a app.App, ctx app.IOContext) (err error) {
 		out           app.Output
 		erro          app.Output
 		scpNamespaces pipservices.Namespaces
+		tasksManager  pipservices.TasksManager
 		silent        bool
 	)
 	if err = goaterr.ToError(goaterr.AppendError(nil,
@@ -74,7 +75,7 @@ func Try(a app.App, ctx app.IOContext) (err error) {
 	}
 	// preload TaskManager to prevent bind it to separated scope (must be bind to root scope)
 	parentScope := ctx.Scope()
-	if _, err = deps.TasksUnit.FromScope(parentScope); err != nil {
+	if tasksManager, err = deps.TasksUnit.FromScope(parentScope); err != nil {
 		return err
 	}
 	if err = parentScope.AddTasks(1); err != nil {
@@ -113,8 +114,22 @@ func Try(a app.App, ctx app.IOContext) (err error) {
 	// what Close reports once the goroutine is done.
 	appendError := parentScope.BaseContextScope().AppendError
 	go func() {
-		var catchErr error
+		var (
+			catchErr  error
+			submitted []string
+		)
 		defer parentScope.DoneTask()
+		// parentScope must stay open until the handlers are over. It waits for the handler tasks
+		// registered in it, but a handler submitted after the surrounding context has ended (an
+		// other handler failed first) is not registered there: wait for the tasks themselves.
+		defer func() {
+			for _, name := range submitted {
+				taskName := namespaces.NewSubNamespaces(scpNamespaces, pipservices.NamasepacesParams{Task: name}).Task()
+				if task, ok := tasksManager.Get(taskName); ok {
+					task.Wait()
+				}
+			}
+		}()
 		catchErr = separatedScope.Wait()
 		// run finally
 		if deps.FinallyBody != "" {
@@ -136,6 +151,7 @@ func Try(a app.App, ctx app.IOContext) (err error) {
 				appendError(err)
 				return
 			}
+			submitted = append(submitted, "finally")
 		}
 		// run fail (if required)
 		if deps.FailBody != "" && catchErr != nil {
@@ -157,6 +173,7 @@ func Try(a app.App, ctx app.IOContext) (err error) {
 				appendError(err)
 				return
 			}
+			submitted = append(submitted, "fail")
 		}
 		// run success (if required)
 		if deps.SuccessBody != "" && catchErr == nil {
@@ -178,6 +195,7 @@ func Try(a app.App, ctx app.IOContext) (err error) {
 				appendError(err)
 				return
 			}
+			submitted = append(submitted, "success")
 		}
 	}()
 	return nil
